@@ -17,6 +17,7 @@ RULE = ("2-8 operations, one per thread, drawn from {construct an evaluator from
         "fresh one of the new text. Non-trivial = schedule with >=1 hand-off while >=2 threads were mid-operation and at least "
         "one source with a block comment; distinct by (operations, schedule).")
 RULE += (' Since round 6: a construction storm (24 real threads constructing from 20-100 kB sources at once).')
+RULE += (' Since rounds 14-15: coverage-directed pre-emption points (first / last execution of every distinct library line) and double pre-emption of two constructions.')
 ASSUMPTIONS = [
     "the owned schedule switches at line granularity inside pyab_experiment and generated code; switches between two "
     "bytecodes of one line and inside C extensions (re, hashlib, pydantic) are only reachable by the probabilistic pre-emptive tier",
